@@ -193,6 +193,8 @@ def run_isolated(fn, timeout):
         time.sleep(0.02)
     try:
         r = json.load(open(res))
+    except Exception:
+        raise Inconclusive('isolated case left no readable result')
     finally:
         os.unlink(res)
     if 'harness_error' in r:
